@@ -178,3 +178,17 @@ claim('C18', 'model_checking',
       _TB + '; the regex->z3 converter and the OSC 1.0 reading stated in the evidence.',
       'SMT regular-language equivalence + decision-tree model checking of the real dispatchers + SMT ranking obligation',
       'DESIGN.md 3/C18')
+
+claim('C20', 'model_checking',
+      'Model checking of the real builder, in an RT- and an NRT-initialised process: (1) `set` inside the builder '
+      'modules is replaced by a subclass whose iteration order is chosen by the decision tree -- every permutation of '
+      'every set iteration in builds of graphs with shared sub-expressions and optimiser rewrites must give the '
+      'baseline bytes; (2) failures injected at a symbolic unit index of the graph function, in the input check, on a '
+      'NaN / non-numeric input, in the signature and in the writer: afterwards no build context, lock free, a stray unit '
+      'belongs to no definition, the next build gives baseline bytes; (3) two real builder threads under a cooperative '
+      'scheduler with hand-over choices at every unit creation and lock operation (<= 2/3 voluntary switches): both '
+      'results equal their sequential builds. Counterexamples are replayed with real sets / real preemptive threads.',
+      _TB + '; finite control spaces are enumerated completely by the decision tree (the solver is only the branch '
+      'oracle here).',
+      'decision-tree model checking of the real builder (adversarial set order, fault injection, cooperative 2-thread '
+      'schedules)', 'DESIGN.md 3/C20')
